@@ -75,8 +75,11 @@ class Container(BaseResource):
         get = BoundClass(ContainerGet)
 
     def _do_put(self, event: ContainerPut) -> bool:
-        if self._capacity - self._level >= event.amount:
-            self._level += event.amount
+        new_level = self._level + event.amount
+        if new_level <= self._capacity:
+            # test the very value that is stored: capacity - level >= amount can
+            # hold in floating point although level + amount rounds above capacity
+            self._level = new_level
             event.succeed()
             return True
         else:
